@@ -64,7 +64,7 @@ const (
 	OFFromUBV
 	OFToSBV // float -> BV W, RTZ
 	OFToUBV
-	OFToF   // float -> float (kind says target)
+	OFToF // float -> float (kind says target)
 	OFFromBits
 	OUF // uninterpreted function application: Name, Args
 )
@@ -80,15 +80,15 @@ var opNames = map[Op]string{
 
 // Term is an immutable node. Terms are interned per TermStore (one per path run).
 type Term struct {
-	Op   Op
-	Kind Kind
-	W    uint8 // bit width for KBV
+	Op      Op
+	Kind    Kind
+	W       uint8 // bit width for KBV
 	A, B, C *Term
-	K    uint64 // constant bits / extract hi,lo
-	Name string
-	Args []*Term
-	id   int32
-	hasVar bool
+	K       uint64 // constant bits / extract hi,lo
+	Name    string
+	Args    []*Term
+	id      int32
+	hasVar  bool
 }
 
 func (t *Term) IsConst() bool { return t.Op == OConst }
